@@ -605,7 +605,7 @@ fn expected_probes(prop: &str) -> Vec<&'static str> {
         "C12" => vec!["c12_inbound_exceeded", "qos1_completed", "qos2_error_pubrec", "resume_with_stored"],
         "C13" => vec!["c13_alias_only_sent", "c13_alias_bound", "c13_alias_rebound", "c13_invalid_alias_received", "c13_alias_resolved_on_receive", "c13_regulate_for_store"],
         "C14" => vec!["c14_oversize_received", "oversize_stored_dropped"],
-        "C15" => vec!["c15_pingreq_rearmed", "c15_server_rearmed", "c15_expiry_pingreq_send", "c15_expiry_timeout", "c15_cancel", "c15_pingreq_sent", "c15_keepalive_liveness_held", "c15_keepalive_liveness_runs"],
+        "C15" => vec!["c15_pingreq_rearmed", "c15_server_rearmed", "c15_expiry_pingreq_send", "c15_expiry_timeout", "c15_cancel", "c15_pingreq_sent", "c15_keepalive_liveness_held", "c15_keepalive_liveness_runs", "c15_pingresp_timeout_changed_while_armed"],
         "C01" => vec!["c01_publish_delivered_end_to_end", "c01_quiescence_reached", "loss_mid_frame", "loss_with_bytes_in_flight", "resume_with_stored", "resume_with_stored_pubrel", "qos2_dup_suppressed", "crash_restore"],
         "C09" => vec!["c09_partitions_checked", "c09_bursts_enumerated_completely_up_to_2_cuts", "c09_bad_remaining_length", "c09_multi_burst_history"],
         "C10" => vec!["c10_history_with_adversarial_traffic", "c10_history_ends_with_partial_frame", "c10_history_ends_with_armed_timer", "c10_history_ends_with_pending_subscribe", "c10_history_ends_with_stored_packets", "c10_new_session_by_session_not_present"],
